@@ -142,7 +142,17 @@ def describe(x):
 
 
 def sample_of(p):
-    return {"kind": p["kind"], "imports": p["imports"], "consts": p["consts"], "backvar": bool(p.get("backvar"))}
+    return {"kind": p["kind"], "imports": p["imports"], "consts": p["consts"], "backvar": bool(p.get("backvar")),
+            "lazy_entry": bool(p.get("lazy_entry"))}
+
+
+def known_symptom(x):
+    """the known classes fail with a diagnostic or a Python exception; a hang or a panic of the compiler is never one of them"""
+    o = x["obs"]
+    if not o["terminated"]:
+        return False
+    err = x["res"]["run"]["err"]
+    return not ("panicked" in err or "unreachable" in err or "RUST_BACKTRACE" in err)
 
 
 def run(ctx):
@@ -170,6 +180,8 @@ def run(ctx):
         p = G.gen_project(ctx.rng, kind, nmax=8 if ctx.rng.random() < 0.5 else 5)
         if kind in ("cycle2", "cycle3") and ctx.rng.random() < 0.15:
             p["backvar"] = True
+        if kind in ("dag", "diamond", "chain") and ctx.rng.random() < 0.3:
+            p["lazy_entry"] = True
         projs.append(p)
     seeds = [ctx.rng.randrange(1, 10 ** 6) for _ in projs]
     out = run_batch(ctx, erg, env, model, projs, seeds, modes=("run",))
@@ -187,10 +199,12 @@ def run(ctx):
             ctx.count("needed more than %d s (machine load)" % R.HANG_S)
         ctx.case(sample_of(p), nontrivial=(len(o["mods"]) >= 2 and o["compiled"]), sample=sample_of(p))
         if not x["judge"]:
-            if cls["known"]:
+            if cls["known"] and known_symptom(x):
                 k = "K1" if cls["K1"] else "K2" if cls["K2"] else "K4"
                 seen_known.setdefault(k, []).append(p)
                 ctx.count("known finding class " + k)
+                if x["bad"] and x["bad"][0].startswith(("graph after", "inlines", "asts")):
+                    corr.append(x)      # resolution is deterministic: a mismatch there is not explained by a known class
                 continue
             n_viol += 1
             if n_viol <= 3:
@@ -226,6 +240,26 @@ def run(ctx):
         else:
             ctx.notes.append("NOTE stale-known-finding %s: witness no longer reproduces" % k.get("id"))
             print("NOTE stale-known-finding property=C20 %s" % k.get("id"))
+    if n_viol == 0 and corr:
+        # model and erg disagree but every build passed the judge: look for a failing input among the disagreeing
+        # projects under other schedules (the disagreement may only matter when the threads are timed differently)
+        for x in corr[:ctx.scale(4, 10)]:
+            p = x["proj"]
+            if classify(x["m0"])["known"]:
+                continue
+            tries = [p] * ctx.scale(5, 12)
+            ys = run_batch(ctx, erg, env, model, tries, [ctx.rng.randrange(1, 10 ** 6) for _ in tries])
+            bad = [y for y in ys if not y["judge"]]
+            ctx.count("search builds after a disagreement", len(tries))
+            if bad:
+                y = bad[0]
+                n_viol += 1
+                ctx.violation("failing-input", "project on which erg violates the property (found under another schedule after the "
+                              "trace left the model: %s): %s" % (x["bad"][0][:200], describe(y)),
+                              case={"project": sample_of(p) | {"n": p["n"]}, "files": G.render(p)},
+                              impl={"stdout": y["obs"]["got"], "errors": y["obs"]["errors"], "analysed": y["obs"]["analysed"]},
+                              model={"intended": y["obs"]["want"], "mismatch": x["bad"]}, judge=False)
+                break
     if n_viol == 0 and (corr or not proof.ok):
         what = []
         if not proof.ok:
